@@ -9,6 +9,8 @@ import (
 	"math/big"
 	"math/rand"
 	"os"
+	"os/exec"
+	"path/filepath"
 	"reflect"
 	"sort"
 	"strings"
@@ -256,6 +258,44 @@ func c14(args []string) error {
 				ncert++
 				if ncert%10 == 0 {
 					flushCerts()
+				}
+			}
+			// goalign compute entropy -a [-g]: the mean of the defined site entropies
+			if bin := os.Getenv("VERIF_GOALIGN_BIN"); bin != "" && x.class == OutOk && r.Intn(3) == 0 {
+				okIn := len(names) > 0
+				for k := range names {
+					if len(seqs[k]) == 0 || strings.ContainsAny(seqs[k], " \t>\r\n\x00") || strings.ContainsAny(names[k], " \t>\r\n\x00") || names[k] == "" {
+						okIn = false
+					}
+				}
+				if tmpd, e := os.MkdirTemp("", "c14cli"); okIn && e == nil {
+					inf := filepath.Join(tmpd, "in.fa")
+					var b strings.Builder
+					for k := range names {
+						fmt.Fprintf(&b, ">%s\n%s\n", names[k], seqs[k])
+					}
+					os.WriteFile(inf, []byte(b.String()), 0644)
+					sum, cnt := 0.0, 0
+					for i := 0; i < a.Length(); i++ {
+						if v, e := a.Entropy(i, rg); e == nil && !math.IsNaN(v) {
+							sum += v
+							cnt++
+						}
+					}
+					args := []string{"compute", "entropy", "-a", "-i", inf}
+					if rg {
+						args = append(args, "-g")
+					}
+					cmd := exec.Command(bin, args...)
+					var stdout bytes.Buffer
+					cmd.Stdout = &stdout
+					agree := true
+					if cmd.Run() == nil {
+						want := fmt.Sprintf("0\t%.3f\n", sum/float64(cnt))
+						agree = strings.HasSuffix(stdout.String(), want)
+					}
+					os.RemoveAll(tmpd)
+					add(alpha, names, seqs, "cli:compute entropy -a", "OpCli "+coqStr("goalign compute entropy -a prints the mean of the defined site entropies"), res{class: OutOk, flag: agree})
 				}
 			}
 		case 8:
